@@ -207,16 +207,16 @@ def gen_value(rng, ftype, fnum=0):
 class Fld:
     """One insertion: field number, value text, and (for a group count field) its elements:
     None = no group operation, list of elements otherwise; an element is a list of Fld."""
-    __slots__ = ("fnum", "val", "elems")
+    __slots__ = ("fnum", "val", "elems", "raw")
 
-    def __init__(self, fnum, val, elems=None):
-        self.fnum, self.val, self.elems = fnum, val, elems
+    def __init__(self, fnum, val, elems=None, raw=False):
+        self.fnum, self.val, self.elems, self.raw = fnum, val, elems, raw   # raw: "~hex" = std::string constructor
 
 
 def ser_fields(fs):
     out = []
     for f in fs:
-        s = "%d=%s" % (f.fnum, f.val.hex() or "-")
+        s = "%d=%s%s" % (f.fnum, "~" if f.raw else "", f.val.hex() or "-")
         if f.elems is not None:
             s += "[" + "".join("(" + ser_fields(e) + ")" for e in f.elems) + "]"
         out.append(s)
@@ -239,6 +239,9 @@ def parse_fields(s):
                 pos[0] += 1
             fnum = int(s[j:pos[0]])
             pos[0] += 1                      # '='
+            raw = s[pos[0]] == "~"
+            if raw:
+                pos[0] += 1
             j = pos[0]
             if s[pos[0]] == "-":
                 pos[0] += 1
@@ -258,7 +261,7 @@ def parse_fields(s):
                 pos[0] += 1                  # ']'
             if pos[0] < len(s) and s[pos[0]] == ",":
                 pos[0] += 1
-            out.append(Fld(fnum, val, elems))
+            out.append(Fld(fnum, val, elems, raw))
         return out
     return fields()
 
